@@ -360,9 +360,9 @@ def view(spec):
 
 
 PARTS = {
-    "traj": {"strategy": spec_traj, "check": check_traj, "examples": {"quick": 1200, "thorough": 20000}, "sample": view},
-    "runave": {"strategy": spec_runave, "check": check_runave, "examples": {"quick": 800, "thorough": 10000}, "sample": view},
-    "corrfunc": {"strategy": spec_acf, "check": check_acf, "examples": {"quick": 800, "thorough": 10000}, "sample": view},
+    "traj": {"strategy": spec_traj, "check": check_traj, "examples": {"quick": 6000, "thorough": 20000}, "sample": view},
+    "runave": {"strategy": spec_runave, "check": check_runave, "examples": {"quick": 4000, "thorough": 10000}, "sample": view},
+    "corrfunc": {"strategy": spec_acf, "check": check_acf, "examples": {"quick": 4000, "thorough": 10000}, "sample": view},
 }
 
 REQUIRED_STRATA = {"all": ["corrfunc:acf:vec", "corrfunc:acf:p2vec", "corrfunc:acf:scalar"]}
